@@ -310,3 +310,90 @@ func DiffStoresNamed(a, b *Replica, maxPerStore int) ([]string, []string) {
 	}
 	return out, differing
 }
+
+// keyClass names the kind of a raw store key: its leading run of letters,
+// digits-free (an ASCII prefix such as "denom_pair_taker_fee"), or else its
+// first byte in hex.
+func keyClass(k []byte) string {
+	n := 0
+	for n < len(k) && n < 32 && (k[n] >= 'a' && k[n] <= 'z' || k[n] == '_') {
+		n++
+	}
+	if n >= 3 {
+		return string(k[:n])
+	}
+	if len(k) == 0 {
+		return "empty"
+	}
+	if len(k) > 1 && k[1] == '/' {
+		// <prefix byte><empty name>/...: a per-denomination sub-store opened with an empty denomination
+		return fmt.Sprintf("0x%02x-empty-name", k[0])
+	}
+	return fmt.Sprintf("0x%02x", k[0])
+}
+
+// DiffStoreClasses compares the committed KV stores of two replicas and
+// returns, sorted, one entry "<store>/<key class>/<only-A|only-B|value>" per
+// class of differing keys.
+func DiffStoreClasses(a, b *Replica) []string {
+	out, _ := DiffStoreClassesEx(a, b, nil)
+	return out
+}
+
+// DiffStoreClassesEx is DiffStoreClasses that also returns one example key per class. refine, when set,
+// may return a suffix that splits a class by what the differing entry holds (va / vb nil = absent).
+func DiffStoreClassesEx(a, b *Replica, refine func(store string, key, va, vb []byte) string) ([]string, map[string]string) {
+	cls := func(store string, key, va, vb []byte) string {
+		c := keyClass(key)
+		if refine != nil {
+			c += refine(store, key, va, vb)
+		}
+		return store + "/" + c
+	}
+	set := map[string]bool{}
+	ex := map[string]string{}
+	note := func(c string, format string, args ...interface{}) {
+		if !set[c] {
+			set[c] = true
+			ex[c] = fmt.Sprintf(format, args...)
+		}
+	}
+	ka, kb := a.App.GetKVStoreKey(), b.App.GetKVStoreKey()
+	names := make([]string, 0, len(ka))
+	for n := range ka {
+		names = append(names, n)
+	}
+	sort.Strings(names)
+	ca, cb := a.QueryCtx(), b.QueryCtx()
+	for _, n := range names {
+		if kb[n] == nil {
+			continue
+		}
+		ia := ca.MultiStore().GetKVStore(ka[n]).Iterator(nil, nil)
+		ib := cb.MultiStore().GetKVStore(kb[n]).Iterator(nil, nil)
+		for ia.Valid() || ib.Valid() {
+			switch {
+			case !ib.Valid() || (ia.Valid() && bytes.Compare(ia.Key(), ib.Key()) < 0):
+				note(cls(n, ia.Key(), ia.Value(), nil)+"/only-"+a.Name, "key %x (%q) = %x exists on %s only", ia.Key(), ia.Key(), ia.Value(), a.Name)
+				ia.Next()
+			case !ia.Valid() || bytes.Compare(ia.Key(), ib.Key()) > 0:
+				note(cls(n, ib.Key(), nil, ib.Value())+"/only-"+b.Name, "key %x (%q) = %x exists on %s only", ib.Key(), ib.Key(), ib.Value(), b.Name)
+				ib.Next()
+			default:
+				if !bytes.Equal(ia.Value(), ib.Value()) {
+					note(cls(n, ia.Key(), ia.Value(), ib.Value())+"/value", "key %x (%q): %s=%x %s=%x", ia.Key(), ia.Key(), a.Name, ia.Value(), b.Name, ib.Value())
+				}
+				ia.Next()
+				ib.Next()
+			}
+		}
+		ia.Close()
+		ib.Close()
+	}
+	out := make([]string, 0, len(set))
+	for c := range set {
+		out = append(out, c)
+	}
+	sort.Strings(out)
+	return out, ex
+}
